@@ -342,6 +342,7 @@ func TestWorker(t *testing.T) {
 		sum.Lattice = append(sum.Lattice, lp)
 	}
 	sum.WallS = time.Since(start).Seconds()
+	addCounts(sum.Fired, poolSeamCounts())
 	b, _ := json.Marshal(sum)
 	if out := os.Getenv("VERIF_OUT"); out != "" {
 		if err := os.WriteFile(out, b, 0o644); err != nil {
